@@ -171,4 +171,19 @@ PROPS['C04'] = {
                   'the implementation-side oracle only uses frames where float arithmetic is exact for equality cases).',
 }
 
+PROPS['C15'] = {
+    'requires': [], 'corr': corr_framework(250, 6000), 'search': 'C15',
+    'trusted_base': ['coq/model/Framework.v is hand-written; correspondence = same tree + recorded draws => same fired '
+                     'leaves, same order, same number of draws, and OneOf/SomeOf.transforms_ps == p_i/sum(p)',
+                     'MT19937 / numpy RandomState.choice are not modelled: frequencies are an implementation-side '
+                     'statistical check (6 sigma)'],
+    'assumptions': ['sum of child probabilities > 0 for OneOf / SomeOf (otherwise the constructor divides by zero)'],
+    'level_text': 'Per-call scheduling clauses (fires iff u<p or always or forced; OneOf = the drawn child, forced; SomeOf '
+                  '= the n drawn children in order; OneOrOther = first or last; listed order; skipped Compose = '
+                  'always-apply leaves; weights sum to 1) are theorems on the operator model for every tree, draw list '
+                  'and leaf semantics; the frequency clause is statistical and explored only.',
+    'level_note': 'Trusted: Coq kernel; the hand-written Framework model, validated on every run against the real '
+                  'operators with recording transforms and recorded entropy reads. Frequencies: partial.',
+}
+
 NOT_CLAIMED = {}
